@@ -325,6 +325,11 @@ var c12Runes = []rune{'a', '"', '\'', '\\', '\n', '\r', '\t', 0, 1, 0x7f, 0x80, 
 
 func writeC12String(t *rapid.T, s string) string {
 	q := rapid.SampledFrom([]rune{'"', '\''}).Draw(t, "quote")
+	return writeC12StringWith(s, q, func(n int) int { return rapid.IntRange(0, n-1).Draw(t, "spelling") })
+}
+
+// writeC12StringWith writes s as a literal quoted with q, choosing one supported spelling per rune.
+func writeC12StringWith(s string, q rune, choose func(n int) int) string {
 	named := map[rune]string{'\a': `\a`, '\b': `\b`, '\f': `\f`, '\n': `\n`, '\r': `\r`, '\t': `\t`, '\v': `\v`, '\\': `\\`}
 	var b strings.Builder
 	b.WriteRune(q)
@@ -346,7 +351,7 @@ func writeC12String(t *rapid.T, s string) string {
 			choices = append(choices, fmt.Sprintf(`\u%04x`, r), fmt.Sprintf(`\u%04X`, r))
 		}
 		choices = append(choices, fmt.Sprintf(`\U%08x`, r))
-		b.WriteString(rapid.SampledFrom(choices).Draw(t, "spelling"))
+		b.WriteString(choices[choose(len(choices))])
 	}
 	b.WriteRune(q)
 	return b.String()
